@@ -61,6 +61,9 @@ inductive ROp where
   | readErr              -- error_log.last_error → the fault text
   | park (loc : Nat)     -- per-request data stored on a shared object   (`self.x = ctx.…`)
   | unpark (loc : Nat)   -- … and read back later in the same request
+  | setCtx (c : Nat)     -- the handler writes cell `c` of its own context (`ctx.transport.resp_headers[..] = …`,
+                         -- `ctx.udc = …`): private — unless the cell really lives on a class (see `ctxShared`)
+  | getCtx (c : Nat)     -- … and the cell is read back (user code, or the transport emitting the headers)
   deriving DecidableEq, Repr
 
 /-- what a request observes and turns into its response -/
@@ -80,16 +83,23 @@ structure RLocal where
   hits : List Bool := []
   /-- private copy of the error taken inside the lock (`ErrRead.underLock`) -/
   err : Option Nat := none
+  /-- the cells of this request's own context (MethodContext / TransportContext / …) -/
+  cells : List (Nat × Nat) := []
   deriving DecidableEq, Repr
 
 structure RFacts where
   order : CacheId → PublishOrder
   errRead : ErrRead
+  /-- cell `c` of the "per-request" context is in fact one object shared by all requests
+      (a mutable attribute hoisted to a context *class*) -/
+  ctxShared : Nat → Bool := fun _ => false
 
 structure RState where
   table : Key → Option Val := fun _ => none
   errlog : Option Nat := none
   scratch : Nat → Option Nat := fun _ => none
+  /-- context cells that are shared because they live on a class -/
+  ctxcell : Nat → Option Nat := fun _ => none
   loc : Nat → RLocal := fun _ => {}
 
 def RState.setLoc (s : RState) (i : Nat) (l : RLocal) : RState :=
@@ -129,6 +139,13 @@ def rstep (F : RFacts) (s : RState) (i : Nat) : RState :=
       { s with scratch := fun y => if y = x then some l.arg else s.scratch y }.setLoc i
         { l with todo := rest }
     | .unpark x => s.setLoc i { l with todo := rest, obs := l.obs ++ [.scr (s.scratch x)] }
+    | .setCtx c =>
+      if F.ctxShared c then
+        { s with ctxcell := fun y => if y = c then some l.arg else s.ctxcell y }.setLoc i { l with todo := rest }
+      else s.setLoc i { l with todo := rest, cells := (c, l.arg) :: l.cells }
+    | .getCtx c =>
+      if F.ctxShared c then s.setLoc i { l with todo := rest, obs := l.obs ++ [.scr (s.ctxcell c)] }
+      else s.setLoc i { l with todo := rest, obs := l.obs ++ [.scr (l.cells.lookup c)] }
 
 def rrun (F : RFacts) : RState → List Nat → RState
   | s, [] => s
@@ -148,11 +165,13 @@ def soloObs (arg : Nat) (invalid : Bool) :
   | .readErr :: rest, e, o => Obs.err e :: soloObs arg invalid rest e o
   | .park x :: rest, e, o => soloObs arg invalid rest e (fun y => if y = x then some arg else o y)
   | .unpark x :: rest, e, o => Obs.scr (o x) :: soloObs arg invalid rest e o
+  | .setCtx c :: rest, e, o => soloObs arg invalid rest e (fun y => if y = c then some arg else o y)
+  | .getCtx c :: rest, e, o => Obs.scr (o c) :: soloObs arg invalid rest e o
 
 /-- the response of the (rest of the) request when it is processed alone — with cold or warm
     caches: the same.  For a thread that has not started: the sequential response. -/
 def soloResponse (l : RLocal) : List Obs :=
-  l.obs ++ soloObs l.arg l.invalid l.todo l.err (fun _ => none)
+  l.obs ++ soloObs l.arg l.invalid l.todo l.err (fun c => l.cells.lookup c)
 
 /-- a thread has answered when no shared operation is left -/
 def RLocal.finished (l : RLocal) : Bool := l.todo.isEmpty
@@ -176,6 +195,8 @@ def ROp.Safe (F : RFacts) : ROp → Prop
   | .readErr => F.errRead = .underLock
   | .park _ => False
   | .unpark _ => False
+  | .setCtx c => F.ctxShared c = false
+  | .getCtx c => F.ctxShared c = false
 
 instance (F : RFacts) (op : ROp) : Decidable (op.Safe F) := by
   cases op <;> simp only [ROp.Safe] <;> infer_instance
